@@ -66,7 +66,7 @@ func (h *Hash) Clone() *Hash {
 func (h HashType) Validate() error {
 	switch h {
 	case HashType_HashType_UNKNOWN:
-		return nil
+		return ErrHashTypeUnknown
 	case HashType_HashType_SHA256:
 		return nil
 	case HashType_HashType_SHA1:
